@@ -44,6 +44,8 @@ def check_C11(ctx):
                                                       "RestoredOutside", "StepBound", "EmitCase"]))
     if not cases:
         raise Infra("MC_C11 emitted no cases")
+    for c in cases:
+        c["finalenv"] = True        # a loop binds its variable and forloop, gives them back, and binds nothing else
     # every case whose loop carries two or more modifiers once more with the modifiers written in another order
     def n_mods(nodes):
         m = 0
@@ -80,6 +82,7 @@ def omni(ctx, quick_n=1500, thorough_n=20000, offset=0, altreprs=0):
     for c in cases:
         c["id"] = "omni%d-%s" % (offset, c["id"])
         c["snaploops"] = True             # C12: the harness's probe tag around every loop (same value bound before and after)
+        c["finalenv"] = True              # C12: what is bound when the render is over, compared with the reference
         if altreprs:
             c["altreprs"] = altreprs      # C18: the same bindings in other Go representations must render the same
     ctx.validate(ctx.run_cases(cases))
@@ -209,6 +212,8 @@ def check_C12(ctx):
     n = 3 if ctx.quick else 4
     cases, _ = ctx.tlc_mc("MC_C12", mc_cfg({"N": n}, ["Terminates", "OutputLaw", "ForloopRestored", "CaptureLaw", "EmitCase"], props=["CaptureSilent"]),
                           timeout=1800)
+    for c in cases:
+        c["finalenv"] = True        # what is bound when the render is over is what the reference says is bound
     ctx.validate(ctx.run_cases(cases))
     if not ctx.quick:
         ctx.validate(ctx.run_cases(ctx.gen("prog", 20000)))
